@@ -10,7 +10,9 @@ def check(ctx, rep):
         "(return, job exception, cancellation): the slot is free on all of them. R03.2 a raised requirement "
         "releases its successors: is_done() is true on finished-by-raising, and the candidate successors are "
         "gathered from *all* done tasks. R03.3 every main wait is re-armed with deadline - now. R03.4 cycles "
-        "raise instead of looping (topological scan makes progress or raises).")
+        "raise instead of looping (topological scan makes progress or raises). R03.6 (= R07.3) every activation "
+        "starts its jobs through a window it built itself: a nested scheduler that queues its jobs on the window "
+        "in which it holds a slot itself wedges a window of 1.")
     rep.declined = ["termination of run() for all schedules (liveness): not a shape of the code"]
     rep.trusted = ["T1", "T3", "T4 asyncio.Queue FIFO wake-up"]
     common.wrap_exits(ctx, rep, "R03.1",
@@ -19,3 +21,4 @@ def check(ctx, rep):
     runrules.eager(ctx, rep, "R03.2e", "R03.2", "R03.2b", "R03.2g")
     runrules.deadline(ctx, rep, "R03.3", "R03.3")
     common.wrap_typestate(ctx, rep, "R03.5")
+    common.window_scope(ctx, rep, "R03.6")
